@@ -8,6 +8,11 @@ open Negotiate DriverUtil
     cfg localAs peerAs cfgInternal routerId hold ka3 sendSw grEn grHelper grNotif grLlgr grTime
         localRestarting treatAsWd  nConfed as…  nAf (family recv sendMax mpGr llgr llgrTime)…
                                             defines the neighbour, resets the peer state (newFSM)
+    gcfg globalAs cfgLocalAs confedEnabled confedId
+                                            the global configuration and the neighbour's configured local-as (0 = none):
+                                            LocalAs and PeerType of the current neighbour are re-derived the way the
+                                            configuration layer does (members = the cfg line's list); resets the peer state
+    localas          -> `<LocalAs> <internal>` of the current neighbour
     restarting b                            sets GracefulRestart.State.PeerRestarting (server-owned)
     open version myAs hold id nParams (0 | 1 nCaps cap…)…      cap = code nArgs arg…
     buildopen        -> the OPEN buildopen produces, `o version myAs hold id | cap | cap …`
@@ -156,6 +161,10 @@ def step (s : St) (ts : List String) : St × List String :=
     match parseCfg rest with
     | some c => ({ s with cfg := c, ps := initState c }, [])
     | none => (s, ["bad-op"])
+  | ["gcfg", gas, cla, ce, cid] =>
+    let c := applyDefaults ⟨nat! gas, b! ce, nat! cid, s.cfg.confedMembers⟩ (nat! cla) s.cfg
+    ({ s with cfg := c, ps := initState c }, [])
+  | ["localas"] => (s, [toString s.cfg.localAs ++ " " ++ b2s s.cfg.cfgInternal])
   | ["restarting", b] => ({ s with ps := { s.ps with peerRestarting := b! b } }, [])
   | "open" :: v :: as :: h :: id :: np :: rest =>
     ({ s with opn := ⟨nat! v, nat! as, nat! h, nat! id, parseParams (nat! np) rest⟩ }, [])
